@@ -57,8 +57,15 @@ func (w *World) ProbeTunnels(mark string) {
 				}
 			}
 		}
-		if t.Handler != nil && t.RevServer != nil {
-			p.RegistryAll = len(t.Handler.AllReverseTunnels())
+		if t.Handler != nil {
+			// (also on handlers that serve forward tunnels only, created with
+			// NoReverseTunnels: the list is empty there, and asking is legal)
+			n := len(t.Handler.AllReverseTunnels())
+			if t.RevServer != nil {
+				p.RegistryAll = n
+			} else if n != 0 && t.Outer == nil {
+				p.RegistryAll = n
+			}
 		}
 		simrt.Emit(simrt.Event{Kind: EvTunnel, S: "probe", A: int64(t.Idx), S2: mark, P: p})
 	}
